@@ -64,7 +64,14 @@ func VrfC10Repin() {
 	// the kinds of pin a peer can hold: plain data, a shard of a sharded add
 	// (depth 1, may reference the previous shard) and the cluster-DAG root of
 	// one (direct, references its meta pin). Meta pins have no holders.
-	switch vrf_choice("pin_type", 3) {
+	// "kinds" = 0 restricts the entry to plain data pins without an update source
+	// (used for the larger peer universe, where the kinds add nothing new)
+	kinds := vrf_param("kinds")
+	pinType := 0
+	if kinds == 1 {
+		pinType = vrf_choice("pin_type", 3)
+	}
+	switch pinType {
 	case 0:
 		stored.Type = api.DataType
 	case 1:
@@ -81,7 +88,7 @@ func VrfC10Repin() {
 		stored.Reference = &ref
 	}
 	vrf_note_int("pin_type", int(stored.Type))
-	if vrf_choice("created_by_pin_update", 2) == 1 {
+	if kinds == 1 && vrf_choice("created_by_pin_update", 2) == 1 {
 		stored.PinUpdate = vrfCid(1)
 		if vrf_choice("update_source_still_pinned", 2) == 1 {
 			src := api.PinCid(vrfCid(1))
